@@ -438,7 +438,13 @@ def magic_bytes():
 # sub-commands
 
 
-def write_pyc(co, out, mtime=0, size=0, flags=0, src=b""):
+def write_pyc(co, out, mtime=0, size=0, flags=0, src=b"", marshal_version=None):
+    if marshal_version is not None:
+        # an older marshal format version of the same interpreter (e.g. 1: text floats, interned strings)
+        _dumps = marshal.dumps
+        marshal_dumps = lambda c: _dumps(c, marshal_version)  # noqa: E731
+    else:
+        marshal_dumps = marshal.dumps
     with open(out, "wb") as f:
         f.write(magic_bytes())
         if PYV >= (3, 7) and flags & 1:
@@ -447,14 +453,14 @@ def write_pyc(co, out, mtime=0, size=0, flags=0, src=b""):
 
             f.write(struct.pack("<I", flags))
             f.write(importlib.util.source_hash(src))
-            f.write(marshal.dumps(co))
+            f.write(marshal_dumps(co))
             return
         if PYV >= (3, 7):
             f.write(struct.pack("<I", 0))
         f.write(struct.pack("<I", mtime & 0xFFFFFFFF))
         if PYV >= (3, 3):
             f.write(struct.pack("<I", size & 0xFFFFFFFF))
-        f.write(marshal.dumps(co))
+        f.write(marshal_dumps(co))
 
 
 def consumed_length(payload):
@@ -541,7 +547,7 @@ def cmd_compile(args, out):
                             optimize=it.get("optimize", -1),
                         )
                 write_pyc(co, it["pyc"], it.get("mtime", 0), len(src), it.get("pyc_flags", 0),
-                          src if isinstance(src, bytes) else src.encode("utf-8", "surrogatepass"))
+                          src if isinstance(src, bytes) else src.encode("utf-8", "surrogatepass"), it.get("marshal_version"))
             with open(it["pyc"], "rb") as f:
                 data = f.read()
             hl = it.get("header_len", header_len())
